@@ -65,21 +65,21 @@ PLAN = {
     ),
     "C04": dict(
         level="exploration",
-        rule='histories (pure data, <= 45 ops quick / 120 thorough) by 3 users over FX, a module-owned multi-chain pair and an externally-owned pair on 3 chains (eth, bsc, tron) with generated timeout / block-time parameters: send, cancel, increase-fee and bridge-call through Cosmos messages and through the precompile (crossChain, cancelSendToExternal, increaseBridgeFee, bridgeCall), request-batch with generated base/minimum fee, deposits (bech32 / erc20 target) and inbound bridge calls as oracle claims with deferred executeClaim, batch-executed events in and out of order, bridge-call results (success / failure), height-only events with jumps to timeout-1 / timeout / timeout+1 of open objects, fxcore height jumps, and a governance raw-store reset of the observed height. The harness plays the external contract (height < timeout, batch nonce increasing per token) and only emits admissible events. ' + "Oracle: ledger per token group after every step: held by tracked accounts (all representations) + pool/batches/outgoing calls + observed-but-unexecuted inbound claims = initial + observed deposits - withdrawals observed as executed; every tracked account's holdings change by exactly what the operation states; for the module-owned multi-chain token what is queued towards plus executed on one external chain never exceeds what came in through it; and a final probe on a branch of the end state (genesis FX escrow paid out beforehand, so the escrow holds only what the history put there): every queued transfer is cancelled by its owner with amount+fee refunded, every holder sends all they hold (bounded per chain by what that chain's contract holds for the multi-chain token) and everything that left a home-chain token's chain comes back as one deposit - none may be refused. Generator: most operations focus on one (chain, token), composites send..batch and far-batch/reset/near-batch/boundary-jump, large sends of a quarter to all of a balance. non-trivial = history with a deposit, a withdrawal door and a refund/cancel/timeout over >= 2 token kinds",
+        rule='histories (pure data, <= 45 ops quick / 120 thorough) by 3 users over FX, a module-owned multi-chain pair and an externally-owned pair on 3 chains (eth, bsc, tron) with generated timeout / block-time parameters: send, cancel, increase-fee and bridge-call through Cosmos messages and through the precompile (crossChain, cancelSendToExternal, increaseBridgeFee, bridgeCall), request-batch with generated base/minimum fee, deposits (bech32 / erc20 target) and inbound bridge calls as oracle claims with deferred executeClaim, batch-executed events in and out of order, bridge-call results (success / failure), height-only events with jumps to timeout-1 / timeout / timeout+1 of open objects and events that report a height below an earlier one, deposits addressed onwards to an IBC route, transfers without a bridge fee through the precompile, bridge-call data and memo of several lengths, fxcore height jumps, and a governance raw-store reset of the observed height. The harness plays the external contract (height < timeout, batch nonce increasing per token) and only emits admissible events. ' + "Oracle: ledger per token group after every step: held by tracked accounts (all representations) + pool/batches/outgoing calls + observed-but-unexecuted inbound claims = initial + observed deposits - withdrawals observed as executed; every tracked account's holdings change by exactly what the operation states; for the module-owned multi-chain token what is queued towards plus executed on one external chain never exceeds what came in through it; and a final probe on a branch of the end state (genesis FX escrow paid out beforehand, so the escrow holds only what the history put there): every queued transfer is cancelled by its owner with amount+fee refunded, every holder sends all they hold (bounded per chain by what that chain's contract holds for the multi-chain token) and everything that left a home-chain token's chain comes back as one deposit - none may be refused. Generator: most operations focus on one (chain, token), composites send..batch and far-batch/reset/near-batch/boundary-jump, large sends of a quarter to all of a balance. non-trivial = history with a deposit, a withdrawal door and a refund/cancel/timeout over >= 2 token kinds",
         assumptions=["IBC vouchers are left to C19", "tokens originating on fxcore are only deposited back up to the amount currently out on that chain (the external contract cannot release more)"],
         quick=[dict(test="TestC04", cases=1200, shards=16, timeout=900)],
         thorough=[dict(test="TestC04", cases=8000, shards=16, timeout=3400, shrink=120)],
     ),
     "C05": dict(
         level="exploration",
-        rule='histories (pure data, <= 45 ops quick / 120 thorough) by 3 users over FX, a module-owned multi-chain pair and an externally-owned pair on 3 chains (eth, bsc, tron) with generated timeout / block-time parameters: send, cancel, increase-fee and bridge-call through Cosmos messages and through the precompile (crossChain, cancelSendToExternal, increaseBridgeFee, bridgeCall), request-batch with generated base/minimum fee, deposits (bech32 / erc20 target) and inbound bridge calls as oracle claims with deferred executeClaim, batch-executed events in and out of order, bridge-call results (success / failure), height-only events with jumps to timeout-1 / timeout / timeout+1 of open objects, fxcore height jumps, and a governance raw-store reset of the observed height. The harness plays the external contract (height < timeout, batch nonce increasing per token) and only emits admissible events. ' + "Oracle: reference model of pool / batches / calls compared with the decoded stores after every step (each id in exactly one place, fields byte-equal to what the creator supplied, ids strictly increasing), settlement amounts per account, cancel only by the creator, batch cancel returns transfers unchanged, a call whose execution was observed is never refunded. non-trivial = history with a batch and (cancel after batching, out-of-order execution, fee increase or batch timeout)",
+        rule='histories (pure data, <= 45 ops quick / 120 thorough) by 3 users over FX, a module-owned multi-chain pair and an externally-owned pair on 3 chains (eth, bsc, tron) with generated timeout / block-time parameters: send, cancel, increase-fee and bridge-call through Cosmos messages and through the precompile (crossChain, cancelSendToExternal, increaseBridgeFee, bridgeCall), request-batch with generated base/minimum fee, deposits (bech32 / erc20 target) and inbound bridge calls as oracle claims with deferred executeClaim, batch-executed events in and out of order, bridge-call results (success / failure), height-only events with jumps to timeout-1 / timeout / timeout+1 of open objects and events that report a height below an earlier one, deposits addressed onwards to an IBC route, transfers without a bridge fee through the precompile, bridge-call data and memo of several lengths, fxcore height jumps, and a governance raw-store reset of the observed height. The harness plays the external contract (height < timeout, batch nonce increasing per token) and only emits admissible events. ' + "Oracle: reference model of pool / batches / calls compared with the decoded stores after every step (each id in exactly one place, fields byte-equal to what the creator supplied, ids strictly increasing), settlement amounts per account, cancel only by the creator, batch cancel returns transfers unchanged, a call whose execution was observed is never refunded. non-trivial = history with a batch and (cancel after batching, out-of-order execution, fee increase or batch timeout)",
         assumptions=["releases are observed (not predicted) and then validated, so a different but property-conforming release order would not alarm"],
         quick=[dict(test="TestC05", cases=1200, shards=16, timeout=900)],
         thorough=[dict(test="TestC05", cases=12000, shards=16, timeout=3400, shrink=120)],
     ),
     "C06": dict(
         level="exploration",
-        rule='histories (pure data, <= 45 ops quick / 120 thorough) by 3 users over FX, a module-owned multi-chain pair and an externally-owned pair on 3 chains (eth, bsc, tron) with generated timeout / block-time parameters: send, cancel, increase-fee and bridge-call through Cosmos messages and through the precompile (crossChain, cancelSendToExternal, increaseBridgeFee, bridgeCall), request-batch with generated base/minimum fee, deposits (bech32 / erc20 target) and inbound bridge calls as oracle claims with deferred executeClaim, batch-executed events in and out of order, bridge-call results (success / failure), height-only events with jumps to timeout-1 / timeout / timeout+1 of open objects, fxcore height jumps, and a governance raw-store reset of the observed height. The harness plays the external contract (height < timeout, batch nonce increasing per token) and only emits admissible events. ' + "Oracle: a batch / call may disappear for timeout only in a step that observed an event and only if the last observed external height >= its timeout; nothing can be batched / called out while no external height is observed; an admissible execution event is never rejected; an object whose execution the external chain reported is never refunded. Generator as for C04, including the composite that builds an older batch with a later timeout than a newer batch of the same token and then jumps the observed height around the nearer timeout. non-trivial = a timeout release and an execution (or a boundary-height jump, or an older batch with a later timeout) in one history",
+        rule='histories (pure data, <= 45 ops quick / 120 thorough) by 3 users over FX, a module-owned multi-chain pair and an externally-owned pair on 3 chains (eth, bsc, tron) with generated timeout / block-time parameters: send, cancel, increase-fee and bridge-call through Cosmos messages and through the precompile (crossChain, cancelSendToExternal, increaseBridgeFee, bridgeCall), request-batch with generated base/minimum fee, deposits (bech32 / erc20 target) and inbound bridge calls as oracle claims with deferred executeClaim, batch-executed events in and out of order, bridge-call results (success / failure), height-only events with jumps to timeout-1 / timeout / timeout+1 of open objects and events that report a height below an earlier one, deposits addressed onwards to an IBC route, transfers without a bridge fee through the precompile, bridge-call data and memo of several lengths, fxcore height jumps, and a governance raw-store reset of the observed height. The harness plays the external contract (height < timeout, batch nonce increasing per token) and only emits admissible events. ' + "Oracle: a batch / call may disappear for timeout only in a step that observed an event and only if the last observed external height >= its timeout; nothing can be batched / called out while no external height is observed; an admissible execution event is never rejected; an object whose execution the external chain reported is never refunded. Generator as for C04, including the composite that builds an older batch with a later timeout than a newer batch of the same token and then jumps the observed height around the nearer timeout. non-trivial = a timeout release and an execution (or a boundary-height jump, or an older batch with a later timeout) in one history",
         assumptions=["the external contract is modelled by its three relevant require()s"],
         quick=[dict(test="TestC06", cases=2400, shards=16, timeout=900)],
         thorough=[dict(test="TestC06", cases=24000, shards=16, timeout=3400, shrink=120)],
@@ -138,7 +138,7 @@ PLAN = {
     "C13": dict(
         level="exploration",
         rule=("histories (<= 35 ops quick / 90 thorough) on a chain module with 2..5 governance-approved oracles (threshold 100 FX, multiple 10, signed window 2..4, slash fraction 0/1/10/50/100 %): bond with amounts below / inside / above the bounds and with another oracle's bridger or external address, "
-              "add-delegate, re-delegate, edit-bridger (handler level), withdraw-reward, governance list updates (arbitrary subsets, remove-one), per-oracle oracle-set confirmations, end blocks, validator slashing, passing of the unbonding period (real staking end blocker), withdrawal before / after maturity and repeated. "
+              "add-delegate, re-delegate, edit-bridger (message server method called directly: the message cannot pass the router on this snapshot), withdraw-reward, governance list updates (arbitrary subsets, remove-one), outgoing bridge calls, per-oracle oracle-set and bridge-call confirmations, end blocks, validator slashing, passing of the unbonding period (real staking end blocker), withdrawal before / after maturity and repeated. "
               "Oracle: record <-> bridger index <-> external index bijection from the raw stores after every step; only approved oracles bond, inside the bounds, paying exactly the stake; recorded stake = transferred - penalties and equals what is delegated on its behalf; one update never removes >= 30 % of online power; "
               "an oracle goes offline at an end block only if an oracle set created at or after the height at which it last joined (bond, or back online by paying its penalty - tracked by the model, not read from the record) stayed unconfirmed by it for the signed window; after removal and maturity the withdrawal succeeds once, pays delegate-account balance minus penalty and deletes the three records; before maturity it must not delete them. "
               "Generator composites: full life cycle (removal, early withdrawal, maturity, two withdrawals), late joiner with colliding addresses, and miss-window / pay penalty / confirm only newer sets / older windows pass. non-trivial = a stake withdrawn after maturity, a slash decision, or a removal followed by the unbonding period"),
